@@ -459,17 +459,15 @@ Section AgreeTerm.
     (forall a, In a parse_statement_arms -> In (fst a E) (c_copulas C)) /\
     (forall ext, In (set_lb E ext, set_rb E ext) (c_set_brackets C)) /\
     (forall c, In c (c_copulas C) -> In c (gen_copulas E)) /\
-    (forall c, ident L ia c = name_charb ia E c) /\
-    copula_lookahead_len_guard = true.
+    (forall c, ident L ia c = name_charb ia E c).
   Proof.
     destruct ag_parts as (_ & H & _). unfold agree_vocab in H. rewrite !andb_true_iff in H.
-    destruct H as [[[[[[[H1 H2] H3] H4] H5] H6] H7] H8].
+    destruct H as [[[[[[H1 H2] H3] H4] H5] H6] H7].
     split; [intros a Ha; apply str_in_In; exact (forallb_In (fun a => str_in (fst a E) (c_prefixes C)) _ a H1 Ha)|].
     split; [intros a Ha; apply str_in_In; exact (forallb_In (fun a => str_in (fst a E) (c_connecters C)) _ a H2 Ha)|].
     split; [intros a Ha; apply str_in_In; exact (forallb_In (fun a => str_in (fst a E) (c_copulas C)) _ a H3 Ha)|].
     split; [intros [|]; apply pair_in_In; assumption|].
     split; [intros c Hc; apply str_in_In; exact (forallb_In (fun c => str_in c (gen_copulas E)) _ c H6 Hc)|].
-    split; [|exact H8].
     intros c. unfold ident, is_identifier, name_charb. unfold ncs_eqb in H7. rewrite !andb_true_iff in H7.
     destruct H7 as [[Ha Hx] Hab]. apply Bool.eqb_prop in Ha. apply str_eqb_eq in Hx. rewrite Ha, Hx.
     destruct (nc_above (name_char E)) as [x|], (nc_above (l_is_identifier L)) as [y|]; try discriminate; [|reflexivity].
@@ -521,11 +519,14 @@ Section AgreeTerm.
 
   Lemma copula_head_false r c : copula_head_str E r = false -> In c (gen_copulas E) -> starts c r = false.
   Proof.
-    destruct ag_vocab as (_ & _ & _ & _ & _ & _ & Hg). unfold copula_head_str. rewrite Hg. intros H Hc.
+    (* whatever the value of the regenerated switch copula_lookahead_len_guard: a real match passes both *)
+    unfold copula_head_str. intros H Hc.
     destruct (starts c r) eqn:Hs; [|reflexivity]. exfalso.
-    assert (Hex : existsb (fun c0 => (length c0 <=? length r)%nat && EnumParser.starts_with_str r c0) (gen_copulas E) = true).
+    assert (Hex : existsb (fun c0 => (if copula_lookahead_len_guard then (length c0 <=? length r)%nat else true)
+                                     && EnumParser.starts_with_str r c0) (gen_copulas E) = true).
     { apply existsb_exists. exists c. split; [exact Hc|]. pose proof (starts_length _ _ Hs) as Hl.
-      apply andb_true_iff. split; [now apply Nat.leb_le|]. unfold EnumParser.starts_with_str.
+      apply andb_true_iff. split; [destruct copula_lookahead_len_guard; [now apply Nat.leb_le | reflexivity]|].
+      unfold EnumParser.starts_with_str.
       destruct c as [|x c]; [reflexivity|]. destruct r as [|y r]; [discriminate|]. now rewrite sws_starts. }
     congruence.
   Qed.
@@ -617,7 +618,7 @@ Section AgreeTerm.
   Theorem lex_tree_ok : total_ok E = true -> forall t v,
     odesugar t = Some v -> names_ok ia E t = true -> lterm_ok ia L (lex_tree E t) = true.
   Proof.
-    intros Htot. destruct ag_vocab as (_ & _ & _ & Hsets & _ & Hid & _).
+    intros Htot. destruct ag_vocab as (_ & _ & _ & Hsets & _ & Hid).
     assert (Hitems : forall items vs,
               Forall (fun t => forall v, odesugar t = Some v -> names_ok ia E t = true -> lterm_ok ia L (lex_tree E t) = true) items ->
               omap odesugar items = Some vs -> forallb (names_ok ia E) items = true ->
@@ -1166,6 +1167,23 @@ Proof.
   apply agree_term_selfdelim; auto. unfold t. cbn [satoms_ok].
   rewrite (sst_satoms_ok std_alnum E x H4 Hx), (sst_satoms_ok std_alnum E y H4 Hy), !andb_true_r.
   unfold t in Hv. rewrite odesugar_stmt in Hv. destruct (nth_error parse_statement_arms arm); [reflexivity | discriminate].
+Qed.
+
+(* C09 for both pipelines: two writings of the same term that differ ONLY in the number of spaces at the
+   token boundaries (any numbers, zero included, independently at every boundary) give the same value in
+   both pipelines *)
+Theorem respacing_both_pipelines_plain (F : Type) E L t1 t2 v : plain_pair E L ->
+  same_shape t1 t2 -> odesugar t1 = Some v -> satoms_ok std_alnum E t1 = true ->
+  of_door F (parse_term F std_alnum E (new_state F (render E t1))) = FOk v /\
+  of_door F (parse_term F std_alnum E (new_state F (render E t2))) = FOk v /\
+  lex_then_fold std_alnum L E (render E t1) = FOk v /\
+  lex_then_fold std_alnum L E (render E t2) = FOk v.
+Proof.
+  intros HP Hs Hv Ha.
+  destruct (agree_term_plain F E L t1 v HP Hv Ha) as [-> ->].
+  assert (Hv2 : odesugar t2 = Some v) by now rewrite <- (same_shape_meaning t1 t2 Hs).
+  assert (Ha2 : satoms_ok std_alnum E t2 = true) by now rewrite <- (satoms_ok_shape std_alnum E t1 t2 Hs).
+  destruct (agree_term_plain F E L t2 v HP Hv2 Ha2) as [-> ->]. repeat split; reflexivity.
 Qed.
 
 (* non-vacuity: the two example trees have well-formed atoms in both formats *)
